@@ -53,13 +53,13 @@ def attr_plan(cls):
     return plan
 
 
-def build(name, depth, log):
+def build(name, depth, log, force_unchecked=False):
     cls = R.class_of(name)
     R.make(name)
     v0 = R._cache.get(name)
     plan = attr_plan(cls) if cls.TYPE.get_xsd_tree().is_complex_type else []
     kw = {k: v1 for k, m, v1, v2 in plan if m in ('kw', 'change', 'remove')}
-    unchecked = rng.random() < 0.15
+    unchecked = force_unchecked or rng.random() < 0.15
     e = cls(v0, xsd_check=not unchecked, **kw) if v0 is not None else cls(xsd_check=not unchecked, **kw)
     for k, m, v1, v2 in plan:
         if m == 'dot':
@@ -73,7 +73,7 @@ def build(name, depth, log):
 
 
 def tree(case, log):
-    root = build(case['root'], 0, log)
+    root = build(case['root'], 0, log, case.get('unchecked_root', False))
     for n in case['word']:
         c = build(n, 1, log)
         root.add_child(c)
